@@ -497,7 +497,17 @@ func runC08(p *core.Prog, r *core.Report, tier string) {
 				// an explicit Release counts as well: what is decided is that no path from the successful Acquire to a
 				// return misses the release
 				if c, ok := in.(*ssa.Call); ok && core.MethodName(c.Common()) == "Release" {
-					deferred = append(deferred, in)
+					// … provided the permit is given back after the node was called, not before: no submit call of this
+					// worker is reachable from the release
+					early := false
+					for k, sc := range submits {
+						if submitFns[k] == W && (core.PathQuery{Fn: W, From: in, Target: func(x ssa.Instruction) bool { return x == sc.(ssa.Instruction) }}).Find() != nil {
+							early = true
+						}
+					}
+					if !early {
+						deferred = append(deferred, in)
+					}
 				}
 			})
 			isDef := func(in ssa.Instruction) bool {
